@@ -630,7 +630,7 @@ def filterRels (n : Nat) (fb : List Nat) (occs : List (Int × Nat)) (nfactors : 
   | r :: t => do
     let keep ← filterFactors fb occs nfactors r.factors
     let rest ← filterRels n fb occs nfactors t
-    if keep then pure ({ r with x := if r.x > n then r.x % n else r.x } :: rest) else pure rest
+    if keep then pure ({ r with x := if r.x ≥ n then r.x % n else r.x } :: rest) else pure rest
 
 def checkRels (n : Nat) : List Relation → M Unit
   | [] => pure ()
